@@ -1,6 +1,7 @@
 package main
 
 import (
+	"go/token"
 	"sort"
 	"fmt"
 	"go/ast"
@@ -30,6 +31,7 @@ type specEnv struct {
 	guard   Term
 	nq      *int
 	loop    *loopInfo // clause attached to this loop: its body's variables shadow outer ones
+	nextOf  map[string]Val // iteration clauses: next(x) = the value the loop-carried variable x takes at this back edge
 	depth   int       // > 0 while evaluating the contract of a pure function used inside a contract
 }
 
@@ -367,6 +369,18 @@ func (e *specEnv) ident(name string) specVal {
 							if _, have := e.fr.vals[dr.X]; have {
 								if found == nil {
 									found = dr.X
+								}
+							} else if bo, isBin := dr.X.(*ssa.BinOp); isBin && bo.Op == token.ADD && scope == e.loop {
+								// the index variable of a range loop (`for i, x := range s`) is the hidden counter + 1;
+								// at the loop head, where the body has not run, it denotes that value
+								if phi, isPhi := bo.X.(*ssa.Phi); isPhi && phi.Comment == "rangeindex" && phi.Block() == e.loop.header {
+									if c, isC := bo.Y.(*ssa.Const); isC && c.Int64() == 1 {
+										if hv, ok := e.over["rangeindex"]; ok {
+											if hs, ok := hv.(Sc); ok {
+												return specVal{V: Sc{Add(hs.T, IntLit(1))}, T: dr.X.Type()}
+											}
+										}
+									}
 								}
 							}
 						}
@@ -1019,6 +1033,36 @@ func (e *specEnv) call(c SCall) specVal {
 		case "errmsg":
 			a := e.eval(c.Args[0])
 			return specVal{V: Sc{v.errMsgTerm(a.V.(IfaceV))}, T: types.Typ[types.String]}
+		case "next":
+			// next(x), in an iteration clause: the value of the loop-carried variable x at the end of the iteration
+			if id2, ok := c.Args[0].(SIdent); ok && e.nextOf != nil {
+				if nv, ok := e.nextOf[id2.Name]; ok {
+					for _, b := range e.fr.fn.Blocks {
+						for _, ins := range b.Instrs {
+							if phi, ok := ins.(*ssa.Phi); ok && phi.Comment == id2.Name && e.loop != nil && phi.Block() == e.loop.header {
+								return specVal{V: nv, T: phi.Type()}
+							}
+						}
+					}
+				}
+			}
+			if id2, ok := c.Args[0].(SIdent); ok && e.nextOf != nil {
+				// a variable that lives in a cell (captured by a closure): its content at the end of the iteration
+				for _, b := range e.fr.fn.Blocks {
+					for _, ins := range b.Instrs {
+						if al, ok := ins.(*ssa.Alloc); ok && al.Comment == id2.Name {
+							if cell, ok := e.fr.vals[al]; ok {
+								et := elemTypeOfAddr(al)
+								return specVal{V: v.deref(e.st, cell, et, e.g()), T: et}
+							}
+						}
+					}
+				}
+			}
+			panic(specErr("next(x) wants a variable carried by the loop of an iteration clause"))
+		case "hasSuffix":
+			a, b := e.eval(c.Args[0]), e.eval(c.Args[1])
+			return specVal{V: Sc{app(SBool, "str.suffixof", b.V.(Sc).T, a.V.(Sc).T)}, T: types.Typ[types.Bool]}
 		case "hasPrefix":
 			a, b := e.eval(c.Args[0]), e.eval(c.Args[1])
 			return specVal{V: Sc{app(SBool, "str.prefixof", b.V.(Sc).T, a.V.(Sc).T)}, T: types.Typ[types.Bool]}
